@@ -134,7 +134,15 @@ def feval(fn, pts):
         i, j = pixel_index(pts, fn["frame"])
         inside = (i >= zb[0]) & (i <= zb[1]) & (j >= zb[2]) & (j <= zb[3])
         out = np.where(inside, 0.0, out)
+    e = fn.get("scale_pow2", 0)
+    if e:
+        out = out * (2.0 ** int(e))  # exact: a power of two only shifts the exponent
     return out
+
+
+def unit_of(fn):
+    """Magnitude unit of the function: 2**scale_pow2 (1.0 when absent)."""
+    return 2.0 ** int(fn.get("scale_pow2", 0) or 0)
 
 
 def zero_pixels(fn, mask):
@@ -192,13 +200,15 @@ def table_eval(tab, pts):
 # ---------------------------------------------------------------------------------------------
 # iterative scheme: the statement's stopping rule, pixel by pixel
 # ---------------------------------------------------------------------------------------------
-def agreement(prev, v, frac, rel, delta, exact_zero):
+def agreement(prev, v, frac, rel, delta, exact_zero, unit=1.0):
     """Does level value v agree with the previous level's value prev?
 
     Returns (met, tie, info).  ratio = smaller/larger, defined only for prev > 0 (otherwise not met);
     met = ratio >= frac and (rel is None or |prev - v| <= rel).  `delta` bounds the absolute error of
     each value; a decision that could flip within that error (or within 1e-9 of a threshold) is a tie.
-    `exact_zero` marks pixels whose values are exactly 0.0 by construction (no rounding involved)."""
+    `exact_zero` marks pixels whose values are exactly 0.0 by construction (no rounding involved).
+    `unit` is the magnitude unit of the function values (2**k for a function scaled by 2**k): the tie band
+    of the absolute tolerance is 1e-9*unit + 2*delta, so every band is relative to the function's scale."""
     info = {"nonpos": False, "abs_decisive": False}
     if exact_zero:
         info["nonpos"] = True
@@ -218,7 +228,7 @@ def agreement(prev, v, frac, rel, delta, exact_zero):
     ok_abs = True
     if rel is not None:
         d = abs(prev - v)
-        if delta > 0 and abs(d - rel) <= 1e-9 + 2.0 * delta:
+        if delta > 0 and abs(d - rel) <= 1e-9 * unit + 2.0 * delta:
             return False, True, info
         ok_abs = d <= rel
         if ok_ratio and not ok_abs:
@@ -226,7 +236,7 @@ def agreement(prev, v, frac, rel, delta, exact_zero):
     return bool(ok_ratio and ok_abs), False, info
 
 
-def iterate_ref(plain, levels, frac, rel, delta, exact_zero=None):
+def iterate_ref(plain, levels, frac, rel, delta, exact_zero=None, unit=1.0):
     """plain: (n,) values at the pixel centres; levels: list of (n,) binned values, one per schedule entry.
 
     Returns dict with out (n,), stop (n,) index into the schedule, tied (n,) bool, nonpos (n,) bool
@@ -247,7 +257,7 @@ def iterate_ref(plain, levels, frac, rel, delta, exact_zero=None):
                 out[p] = v
                 stop[p] = l
                 break
-            met, tie, info = agreement(prev, v, frac, rel, delta, ez)
+            met, tie, info = agreement(prev, v, frac, rel, delta, ez, unit)
             nonpos[p] |= info["nonpos"]
             absd[p] |= info["abs_decisive"]
             if tie:
